@@ -16,7 +16,7 @@ use std::collections::BTreeSet;
 use std::io::Write;
 use std::process::{Command, Stdio};
 
-/// `n2check step <ctl dir> <uid> <restat 0|1> <deps 0|1|2> <rsp path|-> <cmd identity> <n outs> <outs...> <reads...>`
+/// `n2check step <ctl dir> <uid> <restat 0|1> <deps 0|1|2|3> <rsp path|-> <cmd identity> <n outs> <outs...> <reads...>`
 pub fn step_main(args: &[String]) -> ! {
     let ctl = &args[0];
     let uid: usize = args[1].parse().unwrap_or(0);
@@ -80,8 +80,15 @@ pub fn step_main(args: &[String]) -> ! {
         let _ = std::fs::write(o, c);
     }
     let existing: Vec<&String> = inc.iter().filter(|f| std::path::Path::new(f.as_str()).is_file()).collect();
+    if deps == 3 {
+        // both a depfile and `deps = msvc`: the depfile is what counts, the notes are still not for the user
+        println!("compiling {}", uid);
+        for f in &existing {
+            println!("Note: including file:  {}", f);
+        }
+    }
     match deps {
-        1 => {
+        1 | 3 => {
             let mut d = format!("{}:", outs[0]);
             for (i, f) in existing.iter().enumerate() {
                 d.push_str(if i % 2 == 0 { " " } else { " \\\n  " });
@@ -322,6 +329,9 @@ pub fn run_incr_case(case: &Case, env: &Env, focus: &str) -> CaseOut {
         let mut v = |p: &str, k: &str, m: String| out.viols.push(Viol::new(p, format!("bb:{}", k), format!("{} [real binary, round {}]", m, round)));
         if text.contains("panicked") || o.status.code().is_none() {
             v("C06", "binary-died", format!("n2 died: {:?} {}", o.status, String::from_utf8_lossy(&o.stderr).chars().take(300).collect::<String>()));
+        }
+        if text.lines().any(|l| l.starts_with("Note: including file:")) {
+            v("C09", "notes-shown", "a /showIncludes note of a `deps = msvc` step is shown to the user".to_string());
         }
         // each step at most once
         let mut seen = BTreeSet::new();
